@@ -602,7 +602,9 @@ func (e *Exec) bindResults(env *SpecEnv, names []string, sig *types.Signature, r
 			env.vars[n] = res[i]
 		}
 	}
-	if len(res) == 1 {
+	if _, taken := env.vars["result"]; len(res) == 1 && (!taken || len(names) == 0 || names[0] == "result") {
+		// (a contract that renames its single result with `results x` keeps
+		// `result` free for a variable of that name, e.g. a captured one)
 		env.vars["result"] = res[0]
 	}
 }
